@@ -54,6 +54,19 @@ class Ctx:
         self.events = []
         self.reopen_count = 0
 
+    def new_world(self):
+        mat = self.scn.get("mat", {})
+        return materialize.materialize(
+            self.scn["world"]["spec"],
+            mode=mat.get("mode", "u2mem"),
+            order_key=mat.get("order_key"),
+            perm_key=mat.get("perm_key"),
+            ds_names=mat.get("ds_names", True),
+            want_ds=mat.get("want_ds"),
+            scratch_root=self.scratch_root,
+            cache_key=self.scn.get("id"),
+        )
+
     def open_world(self):
         if self.world is not None:
             self.world.close()
@@ -82,38 +95,26 @@ class Ctx:
             self.world = None
 
 
-def _targets(step, world, inplace):
+def _targets(step, world):
     """Resolve the object(s) the step compiles."""
     op = step["op"]
     if ops.is_ds_op(op):
         if world.ds is None:
             raise LookupError("no designspace in this world")
-        ds = world.ds
-        if inplace:
-            fonts = {id(f): copy.deepcopy(f) for f in world.fonts}
-            ds = ds.deepcopyExceptFonts()
-            for s, s0 in zip(ds.sources, world.ds.sources):
-                s.font = fonts[id(s0.font)]
-        return ds
+        return world.ds
     if op == "compileInterpolatableTTFs":
         idx = step.get("fonts")
-        fonts = [world.fonts[i] for i in idx] if idx is not None else list(world.fonts)
-        if inplace:
-            fonts = [copy.deepcopy(f) for f in fonts]
-        return fonts
-    f = world.fonts[step.get("font", 0)]
-    if inplace:
-        f = copy.deepcopy(f)
-    return f
+        return [world.fonts[i] for i in idx] if idx is not None else list(world.fonts)
+    return world.fonts[step.get("font", 0)]
 
 
-def _call(step, ctx, kwargs):
+def _call(step, ctx, kwargs, world):
     """The call into the system under test.  Returns list of TTFonts."""
     import ufo2ft
 
     op = step["op"]
     fn = getattr(ufo2ft, op)
-    target = _targets(step, ctx.world, bool(step.get("inplace")))
+    target = _targets(step, world)
     if op == "compileInterpolatableTTFs":
         gen = fn(target, **kwargs)
         consume = step.get("consume", "all")
@@ -140,7 +141,7 @@ def _call(step, ctx, kwargs):
     return [res]
 
 
-def run_step(step, ctx, want_digests=False, count=True):
+def run_step(step, ctx, want_digests=False, count=True, want_tables=False):
     """Execute one step; returns the event dict."""
     op = step["op"]
     ev = {"op": op, "outcome": None}
@@ -155,6 +156,10 @@ def run_step(step, ctx, want_digests=False, count=True):
         if gen is None:
             ev["outcome"] = "skipped"
             return ev
+    throwaway = None
+    if step.get("inplace") and op in ops.ALL_OPS:
+        # inplace=True runs on a throw-away, identically materialised copy
+        throwaway = world = ctx.new_world()
     fault = step.get("fault") or None
     kind = fault["kind"] if fault else None
     streams = []
@@ -199,7 +204,7 @@ def run_step(step, ctx, want_digests=False, count=True):
                         gen.close()
                         ctx.gens.pop(step.get("gen", "g"), None)
                 else:
-                    outs = _call(step, ctx, kwargs)
+                    outs = _call(step, ctx, kwargs, world)
             ev["outcome"] = "ok"
         except BaseException as e:  # noqa: BLE001 - the SUT may raise anything
             if isinstance(e, (KeyboardInterrupt, SystemExit)):
@@ -238,12 +243,22 @@ def run_step(step, ctx, want_digests=False, count=True):
             except Exception as e:  # noqa: BLE001
                 digs.append("saveexc:" + type(e).__name__)
         ev["digests"] = digs
+        if want_tables:
+            tl = []
+            for tt in outs:
+                try:
+                    tl.append(table_digests(tt))
+                except Exception as e:  # noqa: BLE001
+                    tl.append({"error": type(e).__name__})
+            ev["tables"] = tl
     ev["_outs"] = outs
+    if throwaway is not None:
+        throwaway.close()
     return ev
 
 
 def run_scenario(scn, want_digests=False, check_sources=True, scratch_root=None,
-                 classify=None, keep_outputs=False):
+                 classify=None, keep_outputs=False, want_tables=False):
     """Run all steps; after each one evaluate the C07 oracle (live sources ==
     pristine twin).  Returns {"events": [...], "violations": [...], "known": [...]}.
 
@@ -261,7 +276,7 @@ def run_scenario(scn, want_digests=False, check_sources=True, scratch_root=None,
             ctx.open_world()
             history = []
             for i, step in enumerate(scn["steps"]):
-                ev = run_step(step, ctx, want_digests=want_digests)
+                ev = run_step(step, ctx, want_digests=want_digests, want_tables=want_tables)
                 outs = ev.pop("_outs", None)
                 if keep_outputs:
                     ev["outs"] = outs
